@@ -10,6 +10,7 @@ import (
 	"github.com/mithrandie/csvq/lib/option"
 	"github.com/mithrandie/csvq/lib/parser"
 	"github.com/mithrandie/csvq/lib/value"
+	"github.com/mithrandie/csvq/lib/vhook"
 
 	"github.com/mithrandie/ternary"
 )
@@ -133,6 +134,7 @@ func (view *View) group(ctx context.Context, scope *ReferenceScope, items []pars
 			}
 		}()
 
+		vhook.Yield("group.start", thIdx)
 		start, end := gm.RecordRange(thIdx)
 		seqScope := scope.CreateScopeForSequentialEvaluation(view)
 		groups := make(map[string][]int, 20)
@@ -140,6 +142,7 @@ func (view *View) group(ctx context.Context, scope *ReferenceScope, items []pars
 
 	GroupKeyLoop:
 		for i := start; i < end; i++ {
+			vhook.Yield("group.row", thIdx)
 			if gm.HasError() {
 				break GroupKeyLoop
 			}
